@@ -4,12 +4,43 @@ import (
 	"testing"
 
 	"verif/ev"
+	"verif/gen"
 )
+
+// xzLimitCases turns the enumerated LZMA2 limit scan of C08 (every fill level
+// below the 64 KiB compressed limit of a chunk x four kinds of operation) and
+// the single large writes that cross both chunk limits into xz writer cases:
+// the same data, one Write call, closed; judged by the C01 / C02 oracles.
+func xzLimitCases(rec *ev.Rec, try func(caseXZ) bool) {
+	ok := limitScan(rec, func(c caseC08) bool {
+		x := caseXZ{Cfg: c.Cfg, Data: c.Steps[0].recipe(), Part: gen.Partition{Kind: "single"}}
+		x.Cfg.CheckSum = 1
+		return try(x)
+	})
+	if !ok {
+		return
+	}
+	for i, n := range []int{1<<21 - 273, 1 << 21, 1<<21 + 5000} {
+		if i%rec.Shards != rec.Shard {
+			continue
+		}
+		x := caseXZ{Cfg: gen.Cfg{DefProps: true, DictCap: 1 << 16}, Part: gen.Partition{Kind: "single"},
+			Data: gen.Recipe{{Kind: "random", Len: 100000, Seed: uint64(90 + i)}, {Kind: "run", B: 7, Len: n}, {Kind: "text", K: 4, Len: 500, Seed: 91}}}
+		rec.Class("single_write_across_both_chunk_limits")
+		if !try(x) {
+			return
+		}
+	}
+}
 
 func TestC01(t *testing.T) {
 	rec := ev.New("C01", "exploration")
-	rec.Rule = "rapid draws (writer configuration passing Verify, data recipe, partition into Write calls incl. zero-length writes, tail of calls after Close); non-trivial = input non-empty and the emitted stream (parsed by the reference decoder) has >= 2 blocks or >= 2 chunks or an LZMA chunk containing a match; distinct = hash of the whole case"
+	rec.Rule = "enumerated first: the C08 limit scan (every fill level 0..64 bytes below the compressed limit of a chunk x four kinds of operation) and single writes crossing both chunk limits, through the xz writer; then rapid draws (writer configuration passing Verify, data recipe, partition into Write calls incl. zero-length writes, tail of calls after Close); non-trivial = input non-empty and the emitted stream (parsed by the reference decoder) has >= 2 blocks or >= 2 chunks or an LZMA chunk containing a match; distinct = hash of the whole case"
 	rec.Assumptions = []string{"blocks*DictCap <= 64 MiB (8 MiB for BinaryTree), <= 600 blocks", "BinaryTree: run-like segments <= 12000 bytes (the matcher is quadratic on runs)", "default reader configuration (8 MiB per block) only for streams of <= 16 blocks; all streams are read with ReaderConfig{DictCap: 4096}"}
+	enumerate(t, rec, checkC01, func(try func(caseXZ) bool) { xzLimitCases(rec, try) })
+	if t.Failed() {
+		return
+	}
 	drive(t, rec, drawXZCase, checkC01)
 }
 
@@ -17,5 +48,9 @@ func TestC02(t *testing.T) {
 	rec := ev.New("C02", "exploration")
 	rec.Rule = "the C01 generator; every emitted stream is decoded by the independent reference decoder (strict: CRCs, sizes, index, backward size, flags, paddings, check values, chunk order, range coder end state) and by liblzma, and limits / block sizes / declared dictionary >= max distance are evaluated on the parsed layout; non-trivial = some block contains an LZMA chunk with >= 1 literal and >= 1 match; distinct = hash of the whole case"
 	rec.Assumptions = []string{"reference implementation cross-validated against liblzma and xz-utils in setup", "cases whose Write/Close fail are C01's business and only counted here"}
+	enumerate(t, rec, checkC02, func(try func(caseXZ) bool) { xzLimitCases(rec, try) })
+	if t.Failed() {
+		return
+	}
 	drive(t, rec, drawXZCase, checkC02)
 }
